@@ -105,6 +105,11 @@ def newer_than(srcdir, target):
 def lake_build(targets):
     with Lock("lake"):
         r = run(["lake", "build"] + targets, cwd=LEAN, timeout=3000)
+        if r.returncode != 0:
+            # another lake process (a second check started by hand) may have been rewriting the same build
+            # products: a genuine proof failure fails again, unchanged
+            time.sleep(5)
+            r = run(["lake", "build"] + targets, cwd=LEAN, timeout=3000)
     return r.returncode == 0, r.stdout + r.stderr
 
 
@@ -153,6 +158,9 @@ def audit(prop, workdir):
     path = os.path.join(workdir, "Audit_%s.lean" % prop)
     open(path, "w").write(src)
     r = run(["lake", "env", "lean", path], cwd=LEAN, timeout=1200)
+    if r.returncode != 0:
+        time.sleep(5)
+        r = run(["lake", "env", "lean", path], cwd=LEAN, timeout=1200)
     out = r.stdout + r.stderr
     axioms = {}
     problems = []
